@@ -132,6 +132,7 @@ func c01(r *core.Report) {
 	r.Assumption("the accept/reject iff itself (type dispatch over dynamic types, enum equality, float arithmetic, UTF-16 counting, regexp semantics, oneOf counting) is not decided; only its structural necessary conditions")
 	c01Unique(r)
 	c01EmptyParts(r)
+	c01Length(r)
 
 	// ---------------- C01.cmp
 	r.RunRule("C01.cmp", "keyword <-> comparison table: each bound keyword's failure site is guarded by exactly the negation of the JSON-Schema draft-4 relation between the value-derived operand and the operand derived from that keyword's Schema field (operand roles by dependency roots, not by name); exclusive bounds additionally guarded by their flag; uniqueItems by flag and checker(value); multipleOf tests value / bound; required tests key absence in value", 13, func() {
@@ -897,5 +898,93 @@ func c01EmptyParts(r *core.Report) {
 		if n < 4 {
 			core.Fail("only %d recursive isEmpty calls found", n)
 		}
+	})
+}
+
+// c01Length: minLength / maxLength count characters.
+func c01Length(r *core.Report) {
+	p := r.Prog
+	info := p.Pkg("openapi3").TypesInfo
+	r.RunRule("C01.length", "string length is counted in characters (code points), one per iteration of a `range` over the string: in visitJSONString the variable compared with MinLength / MaxLength starts at zero and is changed only inside `for ... range value`, by 1 — or by another amount only under utf16.IsSurrogate of the ranged rune, which never holds (ranging over a string yields scalar values and U+FFFD, no surrogates); a length taken from an encoding of the string (len of its UTF-16 or UTF-8 form) counts a character above U+FFFF, or any non-ASCII character, more than once", 1, func() {
+		fd := p.DeclOf("openapi3", "Schema.visitJSONString")
+		valueObj := core.ParamObj(info, fd, "value")
+		// the variable compared with a MinLength/MaxLength-derived operand
+		var length types.Object
+		ast.Inspect(fd.Body, func(nd ast.Node) bool {
+			be, ok := nd.(*ast.BinaryExpr)
+			if !ok || (be.Op != token.LSS && be.Op != token.GTR) {
+				return true
+			}
+			if !strings.Contains(core.ExprStr(be.Y), "Length") {
+				return true
+			}
+			if id, ok := ast.Unparen(be.X).(*ast.Ident); ok && length == nil {
+				length = info.ObjectOf(id)
+			}
+			return true
+		})
+		if length == nil {
+			core.Fail("visitJSONString: no `length < minLength` comparison found")
+		}
+		ff := core.NewFuncFacts(p, info, fd)
+		bad := ""
+		n := 0
+		for _, a := range ff.Assigns(length) {
+			n++
+			// where does the assignment stand?
+			inRange := false
+			var rng *ast.RangeStmt
+			for _, anc := range core.PathTo(fd.Body, a.Stmt) {
+				if rs, ok := anc.(*ast.RangeStmt); ok {
+					if id, ok := ast.Unparen(rs.X).(*ast.Ident); ok && info.ObjectOf(id) == valueObj {
+						inRange, rng = true, rs
+					}
+				}
+			}
+			switch st := a.Stmt.(type) {
+			case *ast.IncDecStmt:
+				if !inRange || st.Tok != token.INC {
+					bad = "changed by ++/-- outside the range over the string at " + p.Pos(st.Pos())
+				}
+			case *ast.AssignStmt:
+				if !inRange {
+					// the initialisation: zero
+					rhs := a.Rhs
+					if c, ok := rhs.(*ast.CallExpr); ok && len(c.Args) == 1 {
+						rhs = c.Args[0] // int64(0)
+					}
+					if v, ok := intConst(info, rhs); !ok || v != 0 {
+						bad = "initialised with " + core.ExprStr(a.Rhs) + " at " + p.Pos(st.Pos()) + ", not counted"
+					}
+					continue
+				}
+				// += k inside the loop: k == 1, or under utf16.IsSurrogate(rune of the range)
+				if st.Tok != token.ADD_ASSIGN {
+					bad = "assigned inside the loop at " + p.Pos(st.Pos())
+					continue
+				}
+				if v, ok := intConst(info, st.Rhs[0]); ok && v == 1 {
+					continue
+				}
+				dead := false
+				for _, at := range core.Atoms(core.GuardsAt(info, rng.Body, st)) {
+					if c, ok := ast.Unparen(at.Expr).(*ast.CallExpr); ok && at.Pos && len(c.Args) == 1 {
+						if f := core.CalleeOf(info, c); f != nil && f.Pkg() != nil && f.Pkg().Path() == "unicode/utf16" && f.Name() == "IsSurrogate" {
+							if id, ok := ast.Unparen(c.Args[0]).(*ast.Ident); ok && rng.Value != nil && info.ObjectOf(id) == info.ObjectOf(rng.Value.(*ast.Ident)) {
+								dead = true
+							}
+						}
+					}
+				}
+				if !dead {
+					bad = "increased by " + core.ExprStr(st.Rhs[0]) + " per character at " + p.Pos(st.Pos())
+				}
+			case *ast.ValueSpec, *ast.DeclStmt:
+			}
+		}
+		if n == 0 {
+			core.Fail("visitJSONString: the length variable is never assigned")
+		}
+		r.Check(bad == "", "length:visitJSONString", p.Pos(fd.Pos()), "one per character", "the length held against minLength/maxLength is "+bad+": a string is then longer than its number of characters (an emoji counts 2 in UTF-16, 4 in UTF-8), so `minLength: 2` accepts one character and `maxLength: 2` rejects two")
 	})
 }
